@@ -114,8 +114,20 @@ def spy_runs(M, rec, rng, g, n_nets):
                                           "positive_next_speed", "positive_next_density", "positive_next_queue") if rng.random() < 0.4}
                 explicit = mk_engine(M, exp)
                 ctx = {"desc": desc, "selected": sel, "explicit": exp, "opts": opts}
+                # a probe looks at the selection WHILE the explicit step is running (what another thread would
+                # see): an (empty) init_conditions mapping whose .get() is consulted once per element
+                seen_mid = []
+
+                class Probe(dict):
+                    def get(self, key, default=None):
+                        seen_mid.append(E.get_current_engine() is spy and sym_metanet.engine is spy)
+                        return super().get(key, default)
+
                 try:
-                    built.net.step(engine=explicit, **opts, **kw)
+                    built.net.step(init_conditions=Probe(), engine=explicit, **opts, **kw)
+                    rec.count("selection_reads_during_an_explicit_step", len(seen_mid))
+                    if seen_mid and not all(seen_mid):
+                        rec.violation(f"{PROP}:the selection is not the selected engine while a step with an explicit engine is running", ctx)
                 except Exception as e:
                     rec.violation(f"{PROP}:step(engine={exp}) with {sel} selected raised {type(e).__name__}",
                                   dict(ctx, exception=repr(e)[:300], spy_log=sorted(set(log))))
